@@ -30,6 +30,9 @@ OrderOf(kind) ==
     [] OTHER -> <<"AfterFind">>
 Expected(model, kind) == SelectSeq(OrderOf(kind), LAMBDA h : h \in HooksOf(model))
 
+\* tables only the harness' hooks write to (through the handle the hook receives)
+HookTables == {"audits"}
+
 PInit(start) ==
   [op |-> start, ph |-> "idle",          \* idle | open | closed
    tx |-> 0, failed |-> FALSE, fkind |-> "none", fmodel |-> "", fphase |-> "",
@@ -58,7 +61,10 @@ DrvStep(s0, e) ==
   IF ~Transactional(s) THEN s      \* reads / association mode: only the context rules apply here
   ELSE
   CASE e.k = "begin" ->
-         IF s.ph # "idle" THEN Break(s, "c05", "second BEGIN inside one operation")
+         IF s.ph = "closed" /\ s.op.seqtx /\ ~s.failed
+         THEN (IF e.res = "ok" THEN [s EXCEPT !.ph = "open", !.tx = e.tx, !.ntx = @ + 1]
+               ELSE [s EXCEPT !.failed = TRUE, !.fkind = "stmt", !.sawfault = TRUE])
+         ELSE IF s.ph # "idle" THEN Break(s, "c05", "second BEGIN inside one operation")
          ELSE IF e.res = "ok" THEN [s EXCEPT !.ph = "open", !.tx = e.tx, !.ntx = @ + 1]
          ELSE [s EXCEPT !.ph = "closed", !.failed = TRUE, !.fkind = "stmt", !.sawfault = TRUE]
     [] e.k = "commit" ->
@@ -72,8 +78,13 @@ DrvStep(s0, e) ==
     [] OTHER ->  \* statement
          IF s.ph # "open" THEN Break(s, "c05", "statement outside the operation's transaction: " \o e.cls \o " " \o e.table)
          ELSE IF e.tx # s.tx THEN Break(s, "c05", "statement on another connection/transaction: " \o e.cls \o " " \o e.table)
-         ELSE IF e.res # "ok" THEN [s EXCEPT !.failed = TRUE, !.fkind = "stmt", !.sawfault = (e.res = "fault") \/ s.sawfault]
-         ELSE IF s.failed /\ e.cls \notin {"rollback_to"} THEN Break(s, "c05", "statement executed after a failure: " \o e.cls \o " " \o e.table)
+         ELSE IF e.res # "ok" THEN
+              \* a statement a hook issues through its handle fails: that is the hook failing
+              (IF e.table \in HookTables /\ ~s.failed
+               THEN [s EXCEPT !.failed = TRUE, !.fkind = "hook", !.fmodel = s.op.mainmodel, !.fphase = "before", !.sawfault = TRUE]
+               ELSE [s EXCEPT !.failed = TRUE, !.fkind = (IF s.failed THEN s.fkind ELSE "stmt"), !.sawfault = (e.res = "fault") \/ s.sawfault])
+         ELSE IF s.failed /\ e.cls \notin {"rollback_to"} /\ ~(s.fkind = "hook" /\ e.table \in HookTables)
+              THEN Break(s, "c05", "statement executed after a failure: " \o e.cls \o " " \o e.table)
          ELSE [s EXCEPT !.applied = IF e.cls \in {"insert", "update", "delete"} /\ e.k # "prepare" THEN @ + 1 ELSE @,
                         !.mains = IF e.table = s.op.main /\ e.cls \in {"insert", "update", "delete"} /\ e.k # "prepare"
                                   THEN @ \cup {s.n} ELSE @]
@@ -150,7 +161,7 @@ PEnd(s, e) ==
 (***************************************************************************)
 CONSTANTS MaxEv
 Start == [op |-> "model", kind |-> "create", write |-> TRUE, main |-> "t", mainmodel |-> "User", nohooks |-> FALSE, expect |-> <<>>,
-          fault |-> "none", k |-> 0, ctx |-> "c", prep |-> FALSE, checkhooks |-> FALSE]
+          fault |-> "none", k |-> 0, ctx |-> "c", prep |-> FALSE, checkhooks |-> FALSE, seqtx |-> FALSE]
 Alphabet(s) ==
      {[ev |-> "drv", k |-> "begin", cls |-> "begin", table |-> "", tx |-> 1, ctx |-> "c", res |-> r] : r \in {"ok", "fault"}}
 \cup {[ev |-> "drv", k |-> "exec", cls |-> c, table |-> t, tx |-> x, ctx |-> "c", res |-> r] :
